@@ -29,7 +29,7 @@ def request_bytes(service, v):
     return ref.get_attributes_all([{'class': 1}, {'instance': 1}])
 
 
-def do_route(config, req_route, service, v):
+def do_route(config, req_route, service, v, intended=Ellipsis):
     """config: None (any) | False (simple) | list of segments;   req_route: None (no Unconnected Send wrapper) | list of segments"""
     UC.route_path = config
     sim.attribute('A').value[:] = [1, 2, 3, 4]
@@ -43,6 +43,8 @@ def do_route(config, req_route, service, v):
     if not proceed or rpy is None:
         return False
     e = ref.un_encap([x for x in rpy])
+    if intended is not Ellipsis:
+        config = intended                       # acceptance is judged against the personality that was ASKED for
     accept = config is None or not req_route or (bool(config) and req_route == config)
     after = list(sim.attribute('A').value)
     if not accept:
@@ -85,6 +87,45 @@ for cn, (cexpr, cparams, cpre) in CONFIGS.items():
                    bounds='personality %s x request route path %s x service %s: accepted iff (no configuration) or (request has no route path) or '
                           '(request route == configured route, in port, link, length and link kind); refused => error status and the tag untouched' % (cn, rn, service),
                    outside='route paths longer than 2 segments; forwarding to remote devices (UCMM.route table)')
+
+
+# ---- the personality as main() establishes it: a UCMM subclass carrying route_path, constructed by logix.setup ---------------------------------
+class UCMM_simple(ucmm.UCMM):
+    route_path = False
+
+
+class UCMM_one(ucmm.UCMM):
+    route_path = [{'port': 1, 'link': 0}]
+
+
+class UCMM_any(ucmm.UCMM):
+    route_path = None
+
+
+# constructed ONCE at import (object construction under tracing costs minutes): what UCMM.__init__ made of each class-level route_path
+ESTABLISHED = []
+for _cls in (UCMM_simple, UCMM_one, UCMM_any):
+    sim.setup({'A': (parser.INT, 4)}, UCMM_class=_cls)
+    _uc = logix.setup()
+    assert type(_uc) is _cls
+    ESTABLISHED.append(_uc.route_path)
+TAGS = sim.setup({'A': (parser.INT, 4)})
+UC = logix.setup()
+INTENDED = [False, [{'port': 1, 'link': 0}], None]
+
+
+def do_route_constructed(which, rp, rl, v):
+    which = concretize(which, 3)
+    return do_route(ESTABLISHED[which], [{'port': rp, 'link': rl}], 'write', v, intended=INTENDED[which])
+
+
+define(globals(), 'C15', 'personality_established_by_construction', ['which', 'rp', 'rl', 'v'], "return do_route_constructed(which, rp, rl, v)",
+       ['0 <= which <= 2 and 1 <= rp <= 0xFFFF and 0 <= rl <= 255 and -32768 <= v <= 32767'], timeout=3000, path_timeout=300,
+       drives=DRIVES + ['cpppo.server.enip.ucmm.UCMM.__init__ (route_path from class attribute / [UCMM] Route Path configuration)', 'cpppo.server.enip.logix.setup'],
+       symbolic=['which: simple (route_path False) / one hop 1/0 / unconfigured', 'rp, rl: request route port 1..65535, link 0..255', 'v'],
+       bounds='the personality set the way main() sets it -- a UCMM subclass with a class-level route_path, constructed by logix.setup(UCMM_class=...) (CONCRETELY, at harness import; the route_path the constructor established is then installed): a routed write '
+              'with any one-hop route path is refused by the simple device, accepted by the one-hop device iff it equals 1/0, accepted by the unconfigured device',
+       outside='a [UCMM] Route Path entry in a configuration file (none present in the harness environment)')
 
 
 # ---- textual route paths denote the segments they spell ---------------------------------------------------------------------------------------
